@@ -131,6 +131,9 @@ const (
 
 	// tokenEnd represents a period.
 	tokenEnd
+
+	// tokenEOF represents the end of input.
+	tokenEOF
 )
 
 // GoString returns a string representation of tokenKind.
@@ -160,6 +163,7 @@ func (k tokenKind) String() string {
 		tokenBar:              "bar",
 		tokenComma:            "comma",
 		tokenEnd:              "end",
+		tokenEOF:              "eof",
 	}[k]
 }
 
